@@ -260,8 +260,36 @@ func c02R2(p *engine.Prog, r *engine.Report, ft, pt *ssa.Function) {
 	analyse := func(f *ssa.Function) side {
 		s := side{f: f}
 		var st ssa.Value
+		// the arguments ValidateTx is given, in terms of f's own values — also when the call sits in a
+		// same-package helper that f hands them to (the validation step extracted into a function)
+		var vargs [][]ssa.Value
 		for _, c := range callsTo(f, "blockchain/validation.ValidateTx") {
-			a := c.Common().Args
+			vargs = append(vargs, c.Common().Args)
+		}
+		if len(vargs) == 0 {
+			for _, hc := range engine.Calls(f) {
+				h := hc.Common().StaticCallee()
+				if h == nil || h.Blocks == nil || h.Pkg != f.Pkg {
+					continue
+				}
+				for _, c := range callsTo(h, "blockchain/validation.ValidateTx") {
+					var tr []ssa.Value
+					for _, av := range c.Common().Args {
+						t := av
+						if par, ok := engine.Origin(av).(*ssa.Parameter); ok {
+							for j, q := range h.Params {
+								if q == par && j < len(hc.Common().Args) {
+									t = hc.Common().Args[j]
+								}
+							}
+						}
+						tr = append(tr, t)
+					}
+					vargs = append(vargs, tr)
+				}
+			}
+		}
+		for _, a := range vargs {
 			if k, ok := engine.ConstInt(a[3]); ok {
 				s.mode = itoa(k)
 			} else {
